@@ -161,11 +161,16 @@ package node
 //@   modifies d.LastAveragesData, d.LastAverages, d.LastAveragesHeight
 //@   ensures typeis(Avg, "map[fat2.PTicker]uint64") && avgOf(unbox(Avg, "map[fat2.PTicker]uint64"), height)
 //@
+//@ // LpegPaid: the entries whose PEG requests have been paid from a PEG bank (conversion-limit era).  A request is paid once:
+//@ // the payout pass requires every batch it is handed to be unpaid and marks them paid (C06 C16)
+//@ ghost var LpegPaid set[factom.Bytes32]
 //@ func (*Pegnetd).recordPegnetRequests
 //@   trusted
-//@   modifies Lbal, Lsupply, LtoAmt, Lrefund, LbankUsed, LbankReq
+//@   requires @each_request_is_paid_once forall k int :: 0 <= k && k < len(txBatchs) ==> txBatchs[k] != nil && txBatchs[k].Entry.Hash != nil && !LpegPaid[*txBatchs[k].Entry.Hash]
+//@   modifies Lbal, Lsupply, LtoAmt, Lrefund, LbankUsed, LbankReq, LpegPaid
 //@   ensures !isRejectErr(result)
 //@   ensures result == nil ==> balNonNeg(Lbal)
+//@   ensures result == nil ==> (forall h factom.Bytes32 :: LpegPaid[h] <==> (old(LpegPaid)[h] || (exists k int :: 0 <= k && k < len(txBatchs) && *txBatchs[k].Entry.Hash == h)))
 //@
 //@ // every batch held at or after the last rated block before h has not been executed yet
 //@ spec func heldUnexecuted(hold map[factom.Bytes32]int, rel set[factom.Bytes32], rated set[int], h int) bool =
@@ -179,16 +184,21 @@ package node
 //@   requires @status statusInv(Lexec, Lrel, Lhist) && holdInv(Lhold, Lhist)
 //@   requires @burn_parses validFA(GlobalBurnAddress)
 //@   requires @held_in_window_unexecuted heldUnexecuted(Lhold, Lrel, Lrated, currentHeight)
-//@   modifies Lbal, Lsupply, Lrel, Lexec, LtoAmt, Lrefund, LbankUsed, LbankReq, d.LastAveragesData, d.LastAverages, d.LastAveragesHeight
+//@   requires @held_in_window_unpaid{C06,C16} heldUnexecuted(Lhold, LpegPaid, Lrated, currentHeight)
+//@   modifies Lbal, Lsupply, Lrel, Lexec, LtoAmt, Lrefund, LbankUsed, LbankReq, LpegPaid, d.LastAveragesData, d.LastAverages, d.LastAveragesHeight
 //@   ensures @status err == nil ==> statusInv(Lexec, Lrel, Lhist)
 //@   ensures @never_negative err == nil ==> balNonNeg(Lbal)
 //@   loop 1 invariant @window lastRatedBefore(Lrated, currentHeight) <= i && i <= currentHeight && height == lastRatedBefore(Lrated, currentHeight)
 //@   loop 1 invariant @status statusInv(Lexec, Lrel, Lhist) && holdInv(Lhold, Lhist) && balNonNeg(Lbal)
 //@   loop 1 invariant @unexecuted forall h factom.Bytes32 :: i <= Lhold[h] && Lhold[h] < currentHeight ==> !Lrel[h]
 //@   loop 1 invariant @averages avgOf(averages, lastRatedBefore(Lrated, currentHeight))
+//@   loop 1 invariant @unpaid_window{C06,C16} forall h factom.Bytes32 :: i <= Lhold[h] && Lhold[h] < currentHeight ==> !LpegPaid[h]
+//@   loop 1 invariant @pending_requests_unpaid{C06,C16} (len(pegConversions) == 0 || fresh(pegConversions)) && (forall k int :: 0 <= k && k < len(pegConversions) ==> pegConversions[k] != nil && pegConversions[k].Entry.Hash != nil && !LpegPaid[*pegConversions[k].Entry.Hash] && Lhold[*pegConversions[k].Entry.Hash] < i)
 //@   loop 2 invariant @window lastRatedBefore(Lrated, currentHeight) <= i && i < currentHeight
 //@   loop 2 invariant @status statusInv(Lexec, Lrel, Lhist) && holdInv(Lhold, Lhist) && balNonNeg(Lbal)
 //@   loop 2 invariant @unexecuted_later forall h factom.Bytes32 :: i < Lhold[h] && Lhold[h] < currentHeight ==> !Lrel[h]
+//@   loop 2 invariant @unpaid_window{C06,C16} forall h factom.Bytes32 :: i <= Lhold[h] && Lhold[h] < currentHeight ==> !LpegPaid[h]
+//@   loop 2 invariant @pending_requests_unpaid{C06,C16} (len(pegConversions) == 0 || fresh(pegConversions)) && (forall k int :: 0 <= k && k < len(pegConversions) ==> pegConversions[k] != nil && pegConversions[k].Entry.Hash != nil && !LpegPaid[*pegConversions[k].Entry.Hash] && Lhold[*pegConversions[k].Entry.Hash] <= i)
 //@   loop 2 invariant @unexecuted_rest forall k int :: iter <= k && k < len(txBatches) ==> !Lrel[*txBatches[k].Entry.Hash]
 //@   loop 2 invariant @distinct forall j int, k int :: 0 <= j && j < k && k < len(txBatches) ==> *txBatches[j].Entry.Hash != *txBatches[k].Entry.Hash
 //@   loop 2 invariant @batches forall k int :: 0 <= k && k < len(txBatches) ==> txBatches[k] != nil && txBatches[k].Entry.Hash != nil && tickersInRange(txBatches[k].Transactions) && Lhold[*txBatches[k].Entry.Hash] == i
@@ -359,9 +369,10 @@ package node
 //@   requires @nonneg{C10} balNonNeg(Lbal)
 //@   requires @status statusInv(Lexec, Lrel, Lhist) && holdInv(Lhold, Lhist)
 //@   requires @held_in_window_unexecuted heldUnexecuted(Lhold, Lrel, Lrated, height)
+//@   requires @held_in_window_unpaid heldUnexecuted(Lhold, LpegPaid, Lrated, height)
 //@   requires @no_rates_above_synced{C12} forall h int :: h >= height ==> !Lrated[h]
 //@   requires @burn_parses validFA(GlobalBurnAddress)
-//@   modifies Lbal, Lsupply, Lrel, Lexec, LtoAmt, Lrefund, Lhist, Lhold, Lrated, Lrate, LbankPresent, LbankAmt, LbankUsed, LbankReq, LsnapCur, LsnapPast, LsnapInCur, LsnapInPast, d.LastAveragesData, d.LastAverages, d.LastAveragesHeight
+//@   modifies Lbal, Lsupply, Lrel, Lexec, LtoAmt, Lrefund, Lhist, Lhold, Lrated, Lrate, LbankPresent, LbankAmt, LbankUsed, LbankReq, LpegPaid, LsnapCur, LsnapPast, LsnapInCur, LsnapInPast, d.LastAveragesData, d.LastAverages, d.LastAveragesHeight
 //@   let devDue = height >= config.V20DevRewardsHeightActivation && height % 144 == 0
 //@   // no block is reported as applied with an ignored failure: the ledger invariants hold whenever nil is returned
 //@   ensures @never_negative err == nil ==> balNonNeg(Lbal)
